@@ -60,6 +60,15 @@ Theorem C01_auth_distinct_signers : forall i o, auth i = Ok o -> List.NoDup (key
 Proof. exact auth_distinct_signers. Qed.
 Print Assumptions C01_auth_distinct_signers.
 
+(* (6) the older request format (core.CheckSign, exported for contracts that still use it): accepted for A only if the
+       service maps the presented keys to A, A is neither black- nor grey-listed, and EVERY presented key - at least
+       one - carries a genuine ed25519 signature over exactly function name, arguments and keys *)
+Theorem C01_check_sign_sound : forall i a, check_sign i = Ok a ->
+  exists n ktypes, a_acl i = AclOk a false false n ktypes /\ (1 <= cs_signers i)%nat /\
+    forall j k, nth_error (cs_kis i) j = Some k -> exists sg, nth_error (a_sigs i) j = Some sg /\ genuine k (cs_msg i) sg.
+Proof. exact check_sign_sound. Qed.
+Print Assumptions C01_check_sign_sound.
+
 (* non-vacuity: a 2-of-3 account; two genuine signatures and a blank are accepted, one genuine
    signature and two blanks are rejected *)
 Example C01_example :
